@@ -7,17 +7,17 @@ ID = "C19"
 LEAN_MODULES = ["LexVerif.Props.C19", "LexVerif.Props.RoundNE", "LexVerif.Props.TablesParse", "LexVerif.Props.Literals.ParseFloat", "LexVerif.Props.Literals.ParseInteger"]
 GEN = ["parse_tables", "literals"]
 TRUSTED = TRUSTED_BASE + [
-    "the <=1 ulp bound of the moderate-path estimates (Eisel-Lemire / Bellerophon / binary) is NOT proved in Lean; it is measured against the oracle on the worst cases, which are exactly the inputs on which lossy and exact parsing differ",
+    "the <=1 ulp bound of the lossy Eisel-Lemire estimate (decimal, non-compact builds) is NOT proved in Lean; it is measured against the oracle on the worst cases, which are exactly the inputs on which lossy and exact parsing differ. For Bellerophon and the power-of-two path the bound IS proved on the Lean models (Props/C19.lean), the models being tied to the code by component-level correspondence (ops bel/bin in props/C01.py streams)",
 ]
 RULE = ("every op is run twice (lossy and not): acceptance, count and error must be identical; the lossy value must be the oracle's "
         "correctly rounded float or a neighbour (equal when the correct result is zero/infinite or the input is a fast-path case). "
         "Inputs: G-hard worst cases (near-halfway: exactly where lossy exposes itself), G-exp cut-offs, random literals, radices per feature set. "
         "non-trivial = accepted finite non-zero; distinct = distinct op lines")
 TECHNIQUE = "Lean 4 proof (syntax independence of lossy on the model level is structural; oracle theorems) + correspondence measuring ulp distance to the oracle on near-halfway worst cases"
-LEVEL_TEXT = ("Proved in Lean: the oracle and tables (as C01/C05) and monotonicity of roundNE, which is what makes a neighbour bound meaningful. "
-              "The 1-ulp accuracy of the moderate paths is NOT proved; it is checked against the oracle on near-halfway worst cases for every radix, "
+LEVEL_TEXT = ("Proved in Lean: the oracle and tables (as C01/C05), monotonicity of roundNE, and on the Lean models of the moderate paths: lossy binary() (power-of-two radices) and lossy bellerophon() (decimal under compact, every generic radix) answer with the correctly rounded float or an adjacent pattern (lossy_pow2_neighbour, lossy_bellerophon_neighbour). "
+              "The 1-ulp accuracy of the lossy Eisel-Lemire path (decimal, non-compact builds) is NOT proved; it is checked against the oracle on near-halfway worst cases for every radix, "
               "together with identical acceptance/count/errors between lossy and exact parsing. Partial proof, stated as such.")
-LEVEL_NOTE = "Trusted: Lean kernel; rustc; differential harness; generators. No Lean model of the moderate-path algorithms."
+LEVEL_NOTE = "Trusted: Lean kernel; rustc; differential harness; generators. Power-of-two radices: proved on the Lean model of binary() (Props/C19.lean lossy_pow2_exact / lossy_pow2_agrees / lossy_pow2_bracket_partial: the lossy answer is roundNE of the truncated mantissa, equals the exact answer whenever that decides) and lossy_pow2_neighbour (complete: for a truncated mantissa the lossy answer is the correctly rounded float or the pattern just below it). Bellerophon (decimal under compact, all 29 generic radices): lossy_bellerophon_neighbour, complete on the model (the lossy answer is the correctly rounded float of the true value or an adjacent pattern). Decimal in non-compact builds (Eisel-Lemire, lossy): measured only."
 
 
 def feature_sets(tier):
